@@ -26,9 +26,9 @@ def bitsOf (v : Int) : Int := v % 18446744073709551616
 
 /-- the tie for C10's increment clauses -/
 theorem intInc_agrees (sgn : Bool) (c val : Int) (hwf : (JVal.int sgn c).NumWF) (hval : IsI64 val)
-    (jso u1 h2 cj : Int) (hj : jso ≠ 0) (r : Int × JVal) (h : intInc (.int sgn c) val = .ok r) :
-    ∃ out, Translated.json_object_int_inc jso val (typeInt : Nat) (tagOf sgn) (bitsOf c) u1 h2 cj = .ok out ∧
-      out.ret = r.1 ∧ out.calls = [("JC_INT", [jso])] ∧
+    (jso u1 : Int) (hj : jso ≠ 0) (r : Int × JVal) (h : intInc (.int sgn c) val = .ok r) :
+    ∃ out, Translated.json_object_int_inc jso val (typeInt : Nat) (tagOf sgn) (bitsOf c) u1 = .ok out ∧
+      out.ret = r.1 ∧ out.calls = [] ∧
       ∃ s' c', r.2 = .int s' c' ∧ out.jsoint_cint_type = tagOf s' ∧ out.jsoint_cint = bitsOf c' := by
   unfold intInc at h
   unfold Translated.json_object_int_inc Translated.json_object_int_inc.j5 Translated.json_object_int_inc.j4
@@ -52,9 +52,9 @@ theorem intInc_agrees (sgn : Bool) (c val : Int) (hwf : (JVal.int sgn c).NumWF) 
     all_goals resolve_ifs
     all_goals exact ⟨_, rfl, rfl, rfl, _, _, rfl, by simp, by simp <;> omega⟩
 /-- NULL and nodes of another type: 0 is returned and nothing is written (no call, fields as they were) -/
-theorem intInc_other (jso val ty tag bits u1 h2 cj : Int) (h : jso = 0 ∨ ty ≠ (typeInt : Nat)) :
-    Translated.json_object_int_inc jso val ty tag bits u1 h2 cj =
-      .ok { ret := 0, jso_o_type := ty, jsoint_cint := bits, jsoint_cint_type := tag, calls := [] } := by
+theorem intInc_other (jso val ty tag bits u1 : Int) (h : jso = 0 ∨ ty ≠ (typeInt : Nat)) :
+    Translated.json_object_int_inc jso val ty tag bits u1 =
+      .ok { ret := 0, jsoint_cint := bits, jsoint_cint_type := tag, calls := [] } := by
   unfold Translated.json_object_int_inc
   have h3 : ((typeInt : Nat) : Int) = 3 := by decide
   rw [h3] at h
